@@ -389,6 +389,8 @@ class DescriptorTransaction(_TransactionBase):
                     # the state has also been updated directly in transaction.
                     # update descriptor version
                     old_state, new_state = state_update.old, state_update.new
+                    if new_state is None:
+                        continue  # the state is deleted in this transaction
                 else:
                     old_state = context_state
                     new_state = old_state.mk_copy()
